@@ -515,9 +515,9 @@ MANIFEST_TEXT = {
     ),
     "C19": dict(
         design_ref="DESIGN.md §4-C19",
-        level_text="PARTIAL claim, two parts. (1) Bounded model checking (Kani) of penguin_mux::timing::Backoff with the parameters of the client's call site (extracted from the current penguin/src/client/mod.rs): for ALL max_retry_interval (u64 ms) and max_retry_count (u32), the k-th consecutive failure is delayed by min(200 ms x 2^k, max), the generator gives up exactly after max_retry_count failures (never if 0), reset() restores the shortest delay, no Duration arithmetic panics; plus concrete-parameter runs of 45-70 consecutive failures (command-line defaults, a capped+limited and an uncapped configuration). (2) Source-to-SMT translation of the client's retry loop (gate/retry.py): where reset() is attached, the order and shape of the match arms and the use of advance()'s value are extracted from the current client/mod.rs; for every sequence of 6 loop iterations over {orderly quit, handshake failure retryable/fatal, established-then-lost retryable/fatal} and max_retry_count 0..4, z3 and cvc5 must agree that the loop's trace (delay exponents, way of ending) equals the specification's (k-th consecutive failure, restart after any established connection, give-up, non-retryable ends at once); a counterexample is replayed against the loop's own text compiled in the crate with scripted stubs for its three environment calls. NOT covered: which concrete errors are classified retryable, listeners staying open, the parked stream request - real sockets/signals in the rusty-penguin crate.",
-        level_note="Trusted: Kani/CBMC; z3/cvc5; the extraction grammar of gate/retry.py (anything outside it is INCONCLUSIVE); Backoff's contract links the two parts. Bounds: symbolic-parameter schedules k <= 6 (quick) / 12 (thorough); retry loop 6 iterations.",
-        technique="bounded symbolic execution of the real Backoff (Kani/CBMC) + source-level extraction of the client's retry loop into SMT-LIB decided by z3 and cvc5 (must agree), counterexamples replayed against the loop's own text",
+        level_text="PARTIAL claim, three parts. (1) Bounded model checking (Kani) of penguin_mux::timing::Backoff with the parameters of the client's call site (extracted from the current penguin/src/client/mod.rs): for ALL max_retry_interval (u64 ms) and max_retry_count (u32), the k-th consecutive failure is delayed by min(200 ms x 2^k, max), the generator gives up exactly after max_retry_count failures (never if 0), reset() restores the shortest delay, no Duration arithmetic panics; plus concrete-parameter runs of 45-70 consecutive failures (command-line defaults, a capped+limited and an uncapped configuration). (2) Source-to-SMT translation of the client's retry loop (gate/retry.py): where reset() is attached, the order and shape of the match arms and the use of advance()'s value are extracted from the current client/mod.rs; for every sequence of 6 loop iterations over {orderly quit, handshake failure retryable/fatal, established-then-lost retryable/fatal} and max_retry_count 0..4, z3 and cvc5 must agree that the loop's trace (delay exponents, way of ending) equals the specification's (k-th consecutive failure, restart after any established connection, give-up, non-retryable ends at once); a counterexample is replayed against the loop's own text compiled in the crate with scripted stubs for its three environment calls. (3) Source-to-SMT translation of the CONNECTED main loop and the parked stream request (gate/connected.py): the arms of on_connected's tokio::select! (pattern, awaited source, what the body does with the value), the prelude that retries a parked request, the arms of get_send_stream_chan and the unit variants classified retryable are extracted from the current sources; over 5 loop iterations with the moment and way the multiplexor task ends, the arrival of local events, the arm select! picks and the call results symbolic, z3 and cvc5 must agree that once the task has ended the loop never sleeps, leaves within two iterations without a local event, and leaves with a retryable error (never Ok / the Ctrl-C path); and that a request taken from the queue is delivered, parked or user-cancelled and a parked request is tried first by the next connection. A counterexample is replayed against the REAL on_connected with a real tungstenite / penguin-mux peer on loopback (three scenarios). This part found the pinned defect named in the property text (orderly server close: the client keeps running on the dead multiplexor), fixed in 4c05ee4. NOT covered: which concrete io/tungstenite errors are classified retryable, listeners staying open, a local connection accepted while the tunnel is down (the bounded request channel between listeners and main loop) - real sockets/signals in the rusty-penguin crate.",
+        level_note="Trusted: Kani/CBMC; z3/cvc5; the extraction grammars of gate/retry.py and gate/connected.py (anything outside them is INCONCLUSIVE); Backoff's contract links parts 1 and 2; tokio::select!'s semantics and the behaviour of JoinSet / Multiplexor after the task's end are modelled from their documentation in part 3. Bounds: symbolic-parameter schedules k <= 6 (quick) / 12 (thorough); retry loop 6 iterations; connected loop 5 iterations, one request through two consecutive connections.",
+        technique="bounded symbolic execution of the real Backoff (Kani/CBMC) + source-level extraction of the client's retry loop and of its connected select! loop into SMT-LIB decided by z3 and cvc5 (must agree), counterexamples replayed against the loop's own text / the real on_connected over loopback",
     ),
     "C18": dict(
         design_ref="DESIGN.md §4-C18",
